@@ -14,6 +14,7 @@ import Rare.Proofs.C07NumF64Acc
 import Rare.Proofs.C07NumF64Var
 import Rare.Proofs.C07ModeNaN
 import Rare.Model.C07NumErr
+import Rare.Proofs.C07Sqrt
 import Rare.Gen.C07
 /-!
 C07 – Aggregators compute the exact fold of their sample history.
@@ -1199,6 +1200,14 @@ theorem num_f64_mean_error (keep : Bool) (M : Rat) (hM : M ≤ ((2 ^ 1021 : Nat)
   exact ⟨runFv_samples keep l, mean_acc_error keep M hM l hne hn hl⟩
 
 
+/-- Just outside the magnitude class of `num_f64_mean_error` (`M ≤ 2^1021`): the two finite samples `-MaxFloat64, MaxFloat64`
+have the exact mean 0, but `val − oldMean` overflows and `Mean()` is `+Inf` – no tolerance can hold beyond the class. -/
+theorem num_f64_mean_overflow_counterexample :
+    let l := [F64.neg maxF64, maxF64]
+    (∀ x ∈ l, x.isFinite = true) ∧ mean (l.map F64.toRat) = 0 ∧
+    (runFv false l).mean = F64.inf false ∧ (runFv false l).mean.isFinite = false := by
+  decide +kernel
+
 /-- ACCUMULATED ERROR OF `M2` AND OF `Variance()` (the "sample standard deviation … within floating-point tolerance" part,
 with the tolerance explicit).  For every non-empty list of at most 2^53 finite samples of magnitude at most `M = 2^e`
 (`e ≤ 480`, so that no product of two differences overflows; smaller data are covered by `e = 0`):
@@ -1265,6 +1274,59 @@ theorem num_f64_error_check_true (e : Nat) (l : List F64) (hc : inErrClass e l =
   · obtain ⟨a, b, c⟩ := hv (by omega)
     exact Or.inr ⟨a, b, c⟩
 
+/-- `StdDev()` = `math.Sqrt(Variance())`, FOR EVERY SAMPLE LIST.  The software `F64.sqrt` (compared bit for bit with
+`math.Sqrt` by `agg numf` / `numfv`) takes the integer square root `s` of the scaled argument by Newton's iteration –
+proved correct for every natural number (`F64.isqrt_spec`: `s² ≤ N < (s+1)²`, the fuel always suffices) – and rounds once.
+Hence, whenever `Variance()` is finite and positive: `StdDev()` is FINITE, it is the correct rounding of a rational `t`
+with `(t − 2^-603)² ≤ Variance() ≤ (t + 2^-603)²` (the exact root lies within `2^-603` of `t`, and `t² = Variance()` when
+the root is rational at that scale), and `|StdDev() − t| ≤ t·u + η`.  A zero variance (either sign) is returned as it
+is.  Within the class of `num_f64_variance_error` (finite samples of magnitude ≤ 2^e, e ≤ 480, at least two of them)
+`Variance()` is finite and not negative, so `StdDev()` is always finite there: the chain
+samples → `M2` → `Variance()` → `StdDev()` has an explicit tolerance at every link. -/
+theorem num_f64_stddev (keep : Bool) (l : List F64) :
+    let r := runFv keep l
+    r.stdDev = F64.sqrt r.varianceF ∧
+    (r.varianceF.isZero = true → r.stdDev = r.varianceF) ∧
+    (r.varianceF.isFinite = true → 0 < r.varianceF.toRat →
+      r.stdDev.isFinite = true ∧
+      ∃ t : Rat, F64.sqrtEps ≤ t ∧ r.stdDev = F64.ofRatS false t ∧
+        (t - F64.sqrtEps) * (t - F64.sqrtEps) ≤ r.varianceF.toRat ∧
+        r.varianceF.toRat ≤ (t + F64.sqrtEps) * (t + F64.sqrtEps) ∧
+        r.stdDev.toRat - t ≤ t * uF + F64.etaF ∧ t - r.stdDev.toRat ≤ t * uF + F64.etaF) ∧
+    (∀ e : Nat, e ≤ 480 → 2 ≤ l.length → l.length ≤ 9007199254740992 →
+      (∀ x ∈ l, x.isFinite = true ∧ -((2 ^ e : Nat) : Rat) ≤ x.toRat ∧ x.toRat ≤ ((2 ^ e : Nat) : Rat)) →
+      r.stdDev.isFinite = true) ∧
+    F64.sqrtEps = 1 / ((2 ^ 603 : Nat) : Rat) := by
+  intro r
+  have hz : r.varianceF.isZero = true → r.stdDev = r.varianceF := by
+    intro hz
+    have hm : r.varianceF.mag = 0 := (F64.isZero_iff _).mp hz
+    have hn : r.varianceF.isNaN = false := by simp [F64.isNaN, hm]
+    show F64.sqrt r.varianceF = r.varianceF
+    unfold F64.sqrt
+    rw [hn, hz]; rfl
+  refine ⟨rfl, hz, fun hf hp => sqrt_finite_err r.varianceF hf hp, ?_, rfl⟩
+  intro e he h2 hn hl
+  have hne : l ≠ [] := by intro h; rw [h] at h2; simp at h2
+  obtain ⟨vf, _, _⟩ := (num_f64_variance_error keep e he l hne hn hl).2 h2
+  have hl' : ∀ x ∈ l, x.isFinite = true ∧ -((2 ^ 1021 : Nat) : Rat) ≤ x.toRat ∧ x.toRat ≤ ((2 ^ 1021 : Nat) : Rat) := by
+    intro x hx
+    obtain ⟨a, b, c⟩ := hl x hx
+    have hM : ((2 ^ e : Nat) : Rat) ≤ ((2 ^ 1021 : Nat) : Rat) :=
+      Rat.natCast_le_natCast.mpr (Nat.pow_le_pow_right (by decide) (by omega))
+    exact ⟨a, by grind, by grind⟩
+  obtain ⟨_, nn, _, _⟩ := num_f64_variance_nonneg keep l hn hl'
+  have z0 : (F64.zero false).isFinite = true := by decide
+  have zv : (F64.zero false).toRat = 0 := F64.toRat_eq_zero_of_mag (by decide)
+  have h0 : 0 ≤ r.varianceF.toRat := by
+    have := (F64.le_iff_toRat_le z0 vf).mp nn
+    rwa [zv] at this
+  by_cases hpos : 0 < r.varianceF.toRat
+  · exact (sqrt_finite_err r.varianceF vf hpos).1
+  · have h00 : r.varianceF.toRat = 0 := by grind
+    have hzz : r.varianceF.isZero = true := (F64.isZero_iff _).mpr ((F64.toRat_eq_zero_iff _).mp h00)
+    rw [hz hzz]; exact vf
+
 /-! ### non-vacuity of the float theorems -/
 
 /-- "1.5", "x", "-2", "1e999" (range error), "0x1p-1", "nan". -/
@@ -1309,6 +1371,8 @@ example : IsSortedF false [F64.nan, F64.zero true, F64.zero false, F64.ofInt 1] 
 example : (runFv false [F64.inf false, F64.inf false]).min = F64.inf false := by decide +kernel
 example : (runFv false [F64.neg maxF64, maxF64]).mean = F64.inf false := by decide +kernel
 example : inErrClass 0 [F64.ofRat (1/10), F64.ofRat (2/10), F64.ofRat (3/10)] = true := by decide +kernel
+/-- `num_f64_stddev`: 1, 3, … , 15 have the positive finite variance 24 (√24 is irrational: the bracket is strict). -/
+example : (runFv true exInts8).varianceF.isFinite = true ∧ 0 < (runFv true exInts8).varianceF.toRat := by decide +kernel
 /-- hypotheses of `num_f64_variance_error` (e = 0) on 0.1, 0.2, 0.3: `M2` is rounded (it is not the exact value). -/
 example : (runFv false [F64.ofRat (1/10), F64.ofRat (2/10), F64.ofRat (3/10)]).variance.toRat ≠
     m2 ([F64.ofRat (1/10), F64.ofRat (2/10), F64.ofRat (3/10)].map F64.toRat) := by decide +kernel
